@@ -61,6 +61,21 @@ func genC16(g *gen) {
 	}
 	pickL := func() string { return g.r.pick(colLayouts) }
 	g.orderMismatchMatrix()
+	// operands of different data orders (one row-major, one column-major, both contiguous), every mode: shapes with a unit
+	// first or last extent at rank 3 and 4 included - the storage sequences agree only at rank <= 2
+	for _, op := range []string{"add", "sub", "mul", "gt", "minb"} {
+		for _, sh := range [][]int{{1, 2, 3}, {2, 3, 1}, {1, 3, 2, 1}, {2, 3}, {1, 4}, {2, 1, 3}, {1, 2, 3, 2}} {
+			for _, lay := range [][2]string{{"contig", "colmajor"}, {"colmajor", "contig"}, {"colconv", "contig"}} {
+				for _, mode := range []string{"safe", "unsafe", "reuse"} {
+					m := mode
+					if op == "gt" && mode == "reuse" {
+						m = "reuse-same"
+					}
+					g.binProgram(op, g.r.pick([]string{"f64", "i32", "u16"}), "TT", g.r.pick([]string{"fn", "meth"}), sh, lay[0], lay[1], m, "contig")
+				}
+			}
+		}
+	}
 	for _, op := range append(append(append([]string{}, arithOps...), cmpOps...), "minb", "maxb") {
 		isCmp := false
 		for _, c := range cmpOps {
